@@ -299,7 +299,14 @@ def songJudgeP (flag tags : String) (pcm : Option (List Bytes)) (impl : String) 
       | some (_, some l) =>
         some (l.zipIdx.map fun (b, i) => if i = 9 ∧ b.isEmpty then l.getD 6 [] else b)
       | _ => none
-    if impl.startsWith "song exc:" then "skip"
+    let rawValid := match raw with
+      | some l => l.all fun b => validUtf8 (Vgm.cstr b)
+      | none => true
+    if impl.startsWith "song exc:" then
+      -- a tag that is not valid UTF-8 is an input error raised in `Platform::vgm_export`
+      if !rawValid then (if impl == "song exc:InputError" then "ok" else "fail range_error escaped from the export: " ++ impl)
+      else "skip"
+    else if !rawValid then "skip"
     else
       match getField impl "hex", getField impl "len", getField impl "fnv" with
       | some hex, some len, some fnv =>
